@@ -28,8 +28,8 @@ def verif_hash():
 
 
 TIERS = {
-    'quick': dict(n_gen=26, configs=['tail', 'tail_safe', 'sm', 'sm_safe', 'trace'], n_random=60, all_bytes=False, cb_p=0.25),
-    'thorough': dict(n_gen=160, configs=['tail', 'tail_safe', 'sm', 'sm_safe', 'trace', 'sm_trace'], n_random=300, all_bytes=True, cb_p=0.25),
+    'quick': dict(n_gen=40, configs=['tail', 'tail_safe', 'sm', 'sm_safe', 'trace'], n_random=60, all_bytes=False, cb_p=0.25),
+    'thorough': dict(n_gen=400, configs=['tail', 'tail_safe', 'sm', 'sm_safe', 'trace', 'sm_trace'], n_random=250, all_bytes=True, cb_p=0.25, n_partial=60),
 }
 
 
@@ -51,12 +51,14 @@ def lexrun(seed, tier, log=print, extra_modes=('p',)):
     srcs = [d.source('T%d' % i) for i, d in enumerate(corpus)]
     caps = P.run_capture(srcs)
     log('lexrun: %d definitions, %d accepted (%.1fs)' % (len(corpus), sum(1 for c in caps if c.verdict == 'ACCEPT'), time.time() - t0))
-    accepted = [i for i, c in enumerate(caps) if c.verdict == 'ACCEPT' and not c.nodump]
+    # very large graphs (hundreds of states) cost minutes of rustc time per configuration: leave them out of the zoo
+    accepted = [i for i, c in enumerate(caps) if c.verdict == 'ACCEPT' and not c.nodump and len(c.states) <= 260]
+    skipped_large = [i for i, c in enumerate(caps) if c.verdict == 'ACCEPT' and not c.nodump and len(c.states) > 260]
     # inputs
     inputs = {}
     stats = {}
     for i in accepted:
-        gi, st = P.graph_inputs(caps[i], corpus[i].utf8, all_bytes=cfg['all_bytes'])
+        gi, st = P.graph_inputs(caps[i], corpus[i].utf8, all_bytes=cfg['all_bytes'] and len(caps[i].states) <= 40)
         ri = P.random_inputs(R, corpus[i], cfg['n_random'])
         if corpus[i].utf8:
             ri = [b for b in ri if P.is_valid_utf8(list(b))]
@@ -122,7 +124,7 @@ def lexrun(seed, tier, log=print, extra_modes=('p',)):
     log('lexrun: lean driver %d answers %.1fs' % (len(lean), time.time() - t1))
     r = dict(key=key, seed=seed, tier=tier, corpus=corpus, srcs=srcs, caps=caps, accepted=accepted, inputs=inputs,
              stats=stats, builds={c: dict(ok=b['ok'], secs=b['secs'], stderr=b['stderr'][-4000:]) for c, b in builds.items()},
-             reqs=reqs, preqs=preqs, treqs=treqs, pfx=pfx, zoo_out=zoo_out, lean=lean, wall=time.time() - t0, cached=False)
+             reqs=reqs, preqs=preqs, treqs=treqs, pfx=pfx, skipped_large=skipped_large, zoo_out=zoo_out, lean=lean, wall=time.time() - t0, cached=False)
     pickle.dump(r, open(cpath, 'wb'))
     return r
 
